@@ -389,6 +389,15 @@ class Closers:
                     k += 1
                     if k > 5000:
                         break
+                # the name is compared stripped: \begin{ a } is closed by \end{a}
+                e = a - 1
+                for _ in range(60):
+                    e = T.find('}', e + 1)
+                    if e == -1 or e >= j:
+                        break
+                    x = T[a:e].strip()
+                    if x != T[a:e] and T.startswith(x + '}', j + 5):
+                        found.add(5 + len(x) + 1)
             out.extend(sorted(found, reverse=True))
         self.cache[j] = out
         return out
